@@ -1389,6 +1389,11 @@ fn error_kinds() -> Vec<(&'static str, ruma_client_api::error::ErrorKind)> {
         ("InvalidUsername", K::InvalidUsername),
         ("LimitExceeded/none", K::LimitExceeded { retry_after: None }),
         ("LimitExceeded/delay", K::LimitExceeded { retry_after: Some(RetryAfter::Delay(Duration::from_secs(12))) }),
+        // an HTTP date: whole seconds; dates the header format cannot express must be refused by the encoder
+        ("LimitExceeded/date", K::LimitExceeded { retry_after: Some(RetryAfter::DateTime(std::time::UNIX_EPOCH + Duration::from_secs(1_700_000_000))) }),
+        ("LimitExceeded/date-epoch", K::LimitExceeded { retry_after: Some(RetryAfter::DateTime(std::time::UNIX_EPOCH)) }),
+        ("LimitExceeded/date-before-epoch", K::LimitExceeded { retry_after: Some(RetryAfter::DateTime(std::time::UNIX_EPOCH - Duration::from_secs(1))) }),
+        ("LimitExceeded/date-year-10000", K::LimitExceeded { retry_after: Some(RetryAfter::DateTime(std::time::UNIX_EPOCH + Duration::from_secs(253_402_300_800))) }),
         ("MissingParam", K::MissingParam),
         ("MissingToken", K::MissingToken),
         ("NotFound", K::NotFound),
@@ -1436,9 +1441,18 @@ fn eval_error(kind_idx: usize, status: u16, message: &str, t: &mut Tally) -> Vec
     t.transitions += 1;
     let http1 = match catch(|| err.try_into_http_response::<Vec<u8>>()) {
         Err(p) => return vec![(format!("error/{name}/panic-encode"), p.text)],
-        Ok(Err(e)) => return vec![(format!("error/{name}/encode-error"), format!("{before}: {e}"))],
+        Ok(Err(e)) => {
+            // "for every field content the encoder accepts": only the two dates outside the HTTP date range may be refused
+            t.outcome("client-error-encode", "refused");
+            return if name.ends_with("date-before-epoch") || name.ends_with("date-year-10000") {
+                vec![]
+            } else {
+                vec![(format!("error/{name}/encode-error"), format!("{before}: {e}"))]
+            };
+        }
         Ok(Ok(r)) => r,
     };
+    t.outcome("client-error-encode", "accepted");
     let m1 = Msg::of_response(&http1);
     t.transitions += 1;
     let back = match catch(|| Error::from_http_response(http1)) {
